@@ -16,12 +16,13 @@ ASSUMPTIONS = ['simh5 models an mpio file by one shared serial HDF5 file with co
 
 TIMES = [0, 2, 10, 98, 100, 99998, 999998, 1000000]
 NPTS = [6, 8, 7, 6]
+RT_NPTS = [5, 8, 9, 6]          # round trips: n//p differs between r, v and z, so the block offsets of the three layouts differ on every multi-rank grid
 LAYS = ('flux_surface', 'v_parallel', 'poloidal')
 
 
 def cases(tier, seed):
     out = []
-    wg = [(1, 1), (1, 2), (2, 2), (1, 3), (3, 2)] if tier == 'quick' else [(1, 1), (1, 2), (2, 1), (2, 2), (1, 3), (3, 2), (2, 3), (6, 1)]
+    wg = [(1, 1), (1, 2), (2, 2), (1, 3), (3, 2)] if tier == 'quick' else [(1, 1), (1, 2), (2, 1), (2, 2), (1, 3), (3, 2), (2, 3), (5, 1)]
     rg = [(1, 1), (2, 1), (2, 3)] if tier == 'quick' else [(1, 1), (1, 2), (2, 1), (2, 2), (1, 3), (3, 2), (2, 3)]
     for lay in LAYS:
         for w in wg:
@@ -84,12 +85,17 @@ def _roundtrip(case, V, st):
     tag = 'layout %s writer %r %s' % (lay, case['writer'], case['dtype'])
     try:
         def wfn(r):
-            g, c, t = setupCylindricalGrid(layout=lay, npts=list(NPTS), comm=MPI.COMM_WORLD, dtype=dtype)
+            g, c, t = setupCylindricalGrid(layout=lay, npts=list(RT_NPTS), comm=MPI.COMM_WORLD, dtype=dtype, allocateSaveMemory=True)
             l = g.getLayout(lay)
             setupSave(c, W)
             g.getAllData()[:] = _gfield(l, dtype) * 0 - 1
             g.writeH5Dataset(W, 0)
             g.getAllData()[:] = _gfield(l, dtype)
+            # the layout at save time is reached through save / other layout / restore (as in a predictor-corrector step), not
+            # through setLayout
+            g.saveGridValues()
+            g.setLayout([x for x in LAYS if x != lay][-1])
+            g.restoreGridValues()
             g.writeH5Dataset(W, 40)
             return True
         try:
@@ -113,7 +119,7 @@ def _roundtrip(case, V, st):
                 g3, c3, t3 = setupFromFile(W, comm=MPI.COMM_WORLD, dtype=dtype, timepoint=0)
                 if t3 != 0 or not np.array_equal(g3.getAllData(), _gfield(g3.getLayout(g3.currentLayout), dtype) * 0 - 1):
                     probs.append('setupFromFile:requested-time')
-                g2, c2, t2 = setupCylindricalGrid(layout=lay, npts=list(NPTS), comm=MPI.COMM_WORLD, dtype=dtype)
+                g2, c2, t2 = setupCylindricalGrid(layout=lay, npts=list(RT_NPTS), comm=MPI.COMM_WORLD, dtype=dtype)
                 l = g2.getLayout(lay)
                 g2.loadFromFile(W)
                 if not np.array_equal(g2.getAllData(), _gfield(l, dtype)):
@@ -134,6 +140,14 @@ def _roundtrip(case, V, st):
                 g2.setLayout(lay)
                 if not np.array_equal(g2.getAllData(), _gfield(l, dtype)):
                     probs.append('loadFromFile:field-lost-on-layout-change')
+                # loading into a grid that came back to its layout through save / other layout / restore
+                g5, c5, t5 = setupCylindricalGrid(layout=lay, npts=list(RT_NPTS), comm=MPI.COMM_WORLD, dtype=dtype, allocateSaveMemory=True)
+                g5.saveGridValues()
+                g5.setLayout(other2)
+                g5.restoreGridValues()
+                g5.loadFromFile(W, 40)
+                if g5.currentLayout != lay or not np.array_equal(g5.getAllData(), _gfield(l, dtype)):
+                    probs.append('loadFromFile:after-restore')
                 # layout wanted by the caller differs from the stored one
                 other = [x for x in LAYS if x != lay][0]
                 g4, c4, t4 = setupFromFile(W, comm=MPI.COMM_WORLD, dtype=dtype, layout=other)
